@@ -307,6 +307,111 @@ Fixpoint ser (v : sval) : res value :=
       end
   end.
 
+(* ------------------------------------------------------------------ a Value sent through serde again *)
+
+(* `impl Serialize for Key` (key.rs 156-171) handed to MapKeySerializer (that is what
+   SerializeMap::serialize_key does with it): Bool -> serialize_bool -> Key::Bool; U64/I64/U128/I128
+   -> serialize_{u64,i64,u128,i128} -> the same variant; String and Str -> serialize_str ->
+   Key::String (an owned key, equal to the one it came from) *)
+Definition rekey (k : key) : key :=
+  match k with
+  | KBool b => KBool b
+  | KInt r z => KInt r z
+  | KStr s _ => KStr s true
+  end.
+
+(* `impl Serialize for Value` (value/mod.rs 1062-1093) handed to ValueSerializer: what
+   `Value::try_from_serializable(&value)` / `Context::insert(k, &value)` produce.
+     None | Undefined -> serialize_unit  -> None        (undefined becomes none)
+     Bool             -> serialize_bool  -> Bool
+     U64/I64/U128/I128-> serialize_{u64,i64,u128,i128} -> the same variant
+     F64              -> serialize_f64   -> F64
+     Bytes            -> serialize_bytes -> Bytes
+     String           -> serialize_str   -> a NORMAL string (the safe flag is not carried)
+     Array            -> serialize_seq, every element again through ValueSerializer
+     Map              -> serialize_map, serialize_entry(key, value) per entry, inserted into a fresh Map *)
+Fixpoint reser (v : value) : res value :=
+  match v with
+  | VUndef | VNone => ROk VNone
+  | VBool b => ROk (VBool b)
+  | VInt r z => ROk (VInt r z)
+  | VFloat f => ROk (VFloat f)
+  | VStr s _ => ROk (VStr s false)
+  | VBytes b => ROk (VBytes b)
+  | VArr l => res_bind (map_res reser l) (fun xs => ROk (VArr xs))
+  | VMap m =>
+      res_bind (map_res (fun e : key * value =>
+                           res_bind (reser (snd e)) (fun x => ROk (rekey (fst e), x))) m)
+               (fun es => ROk (VMap (build_map es)))
+  end.
+
+(* the data-model term `impl Serialize for Value` emits, for values without byte strings (the
+   grammar `sval` has no bytes): reser v = ser (to_sval v) there (Proofs/ReserProofs.v) *)
+Definition irep_sval (r : irep) (z : Z) : sval :=
+  match r with
+  | U64 => SInt false 64 z | I64 => SInt true 64 z
+  | U128 => SInt false 128 z | I128 => SInt true 128 z
+  end.
+Definition key_to_sval (k : key) : sval :=
+  match k with
+  | KBool b => SBool b
+  | KInt r z => irep_sval r z
+  | KStr s _ => SStr s
+  end.
+Fixpoint to_sval (v : value) : sval :=
+  match v with
+  | VUndef | VNone => SUnit
+  | VBool b => SBool b
+  | VInt r z => irep_sval r z
+  | VFloat f => SFloat 64 f
+  | VStr s _ => SStr s
+  | VBytes _ => SUnit      (* not expressible: excluded by `bytes_free` wherever to_sval is used *)
+  | VArr l => SSeq (map to_sval l)
+  | VMap m => SMap (map (fun e : key * value => (key_to_sval (fst e), to_sval (snd e))) m)
+  end.
+
+(* what re-serialisation does to a value, written without the serialiser: undefined -> none, the
+   safe flag is cleared, string keys become owned keys; everything else stays *)
+Fixpoint renorm (v : value) : value :=
+  match v with
+  | VUndef => VNone
+  | VStr s _ => VStr s false
+  | VArr l => VArr (map renorm l)
+  | VMap m => VMap (map (fun e : key * value => (rekey (fst e), renorm (snd e))) m)
+  | _ => v
+  end.
+
+(* equality of values that ignores only the String/Str distinction of keys (which `Key: Eq`,
+   `Hash`, `Ord`, `Display` and `as_value` all ignore) *)
+Definition key_same (a b : key) : bool :=
+  match a, b with
+  | KBool x, KBool y => Bool.eqb x y
+  | KInt r x, KInt r' y => irep_eqb r r' && Z.eqb x y
+  | KStr s _, KStr t _ => str_eqb s t
+  | _, _ => false
+  end.
+Section All2V.
+  Context {A B : Type} (f : A -> B -> bool).
+  Fixpoint all2v (la : list A) (lb : list B) : bool :=
+    match la with
+    | [] => match lb with [] => true | _ => false end
+    | a :: la' => match lb with [] => false | b :: lb' => f a b && all2v la' lb' end
+    end.
+End All2V.
+Fixpoint value_same (a b : value) {struct a} : bool :=
+  match a, b with
+  | VUndef, VUndef | VNone, VNone => true
+  | VBool x, VBool y => Bool.eqb x y
+  | VInt r x, VInt r' y => irep_eqb r r' && Z.eqb x y
+  | VFloat x, VFloat y => sf_eqb_syn x y
+  | VStr s f, VStr s' f' => str_eqb s s' && Bool.eqb f f'
+  | VBytes x, VBytes y => list_eqb N.eqb x y
+  | VArr l, VArr l' => all2v value_same l l'
+  | VMap m, VMap m' =>
+      all2v (fun (e e' : key * value) => key_same (fst e) (fst e') && value_same (snd e) (snd e')) m m'
+  | _, _ => false
+  end.
+
 (* ------------------------------------------------------------------ deserialisation *)
 
 (* which Deserializer impl the target type is talking to *)
@@ -534,3 +639,10 @@ Definition insert (k : str) (v : sval) (c : ctx) : res ctx :=
   | RErr _ => RErr ErrPanic
   end.
 Definition insert_value (k : str) (x : value) (c : ctx) : ctx := ctx_insert k x c.
+
+(* Context::insert(k, &value) with T = Value: the value goes through serde again *)
+Definition insert_reser (k : str) (x : value) (c : ctx) : res ctx :=
+  match reser x with
+  | ROk y => ROk (ctx_insert k y c)
+  | RErr _ => RErr ErrPanic
+  end.
